@@ -727,7 +727,10 @@ func (p *Program) GoTargetName(g *ssa.Go) string {
 // ThinGoWrapper reports whether fn is such a literal (its single call is then
 // not a "synchronous call" of the callee in the starting function's sense).
 func (p *Program) ThinGoWrapper(fn *ssa.Function) bool {
-	if fn == nil || fn.Parent() == nil || !strings.HasSuffix(p.Name(fn), "$go") || len(fn.Blocks) != 1 {
+	if fn == nil || fn.Parent() == nil || len(fn.Blocks) != 1 {
+		return false
+	}
+	if n := p.Name(fn); !strings.HasSuffix(n, "$go") && !strings.Contains(n[strings.LastIndex(n, "$")+1:], "arg:goFunc") {
 		return false
 	}
 	n := 0
